@@ -17,6 +17,7 @@ LEVEL_TEXT = ("For each generated base command the real tool is run on the same 
 LEVEL_TEXT += ' Names outside the documented four (upper case, .fna, .csfasta, _sequence.txt, …) and two-file outputs whose names disagree must give, for every compression suffix and core count, what the plain single-core run of the same names gives; standard input is fed plain and compressed, from a file and through a pipe; paired data on standard output with --fasta; interleaved FASTA input with one and two cores.'
 LEVEL_TEXT += ' Layout of redirect files against the layout of the main output, reads redirected to standard output with and without --fasta, more cores requested than CPUs available.'
 LEVEL_TEXT += ' Demultiplexed files named after adapters that carry an extension: format and records as in the plain single-core run for every template suffix and core count.'
+LEVEL_TEXT += ' Output names that are symbolic links to files with another extension.'
 LEVEL_NOTE = ("Trusted base: Python's gzip/bz2/lzma modules and the zstd binary for producing and reading the containers, the independent "
               "parser, refmodel.output_format_from_name (the documented rule).")
 VARIANTS = {"quick": ["plain"], "thorough": ["plain"]}
